@@ -29,6 +29,9 @@ def run(tier, seed):
     if tier == "thorough":
         gb = tlc.run("Critic", GEN % ("FALSE", "TRUE"), workers=NCPU, timeout=1500, heap="16g")
         scripts = uniq(scripts + gb.printed, key=lambda s: s["src"])
+    gd = tlc.run("Critic", GEN.replace("INIT Init", "INIT InitDeep") % ("FALSE", "FALSE"), workers=4, timeout=900)
+    if gd.violated or len(gd.printed) < 10: raise FrameworkError("Critic(deep): %s, %d scripts" % (gd.violated, len(gd.printed)))
+    scripts = uniq(scripts + gd.printed, key=lambda s: s["src"])
     exe = build.build_harness("asan")
     cases = []
     for s in scripts:
@@ -120,7 +123,7 @@ def run(tier, seed):
     chk.cov["evaluations"] = len(cases) + 2 * len(sel)
     chk.cov["distinct_nontrivial"] = len(scripts)
     chk.cov["rule"] = ("scripts: TLC BFS of every script with <= 2 top-level items over text/comment/substitution leaves, additions/deletions/highlights of <= 1 leaf (thorough: <= 2 leaves, more texts), "
-                       "doubly nested single marks, one unmatched marker; TLC simulation of 1-5 items with nesting depth 3; cases = script x {accept, reject} x {whole, item-boundary sub-ranges}")
+                       "doubly nested single marks, one unmatched marker; runs of 3..2500 unmatched opening markers followed by well-formed marks of the other families; TLC simulation of 1-5 items with nesting depth 3; cases = script x {accept, reject} x {whole, item-boundary sub-ranges}")
     chk.sample(dict(src=scripts[3]["src"])); chk.sample(dict(src=gs.printed[-1]["src"], sc=gs.printed[-1]["sc"]))
     seen = {}
     for seg, idx in rejected:
@@ -128,7 +131,7 @@ def run(tier, seed):
         kinds = sorted({i["t"] for i in ev["sc"]} | {c["t"] for i in ev["sc"] for c in i["c"]})
         strays = [i["s"] for i in ev["sc"] if i["t"] == "stray"]
         idem = "not-idempotent" if (ev["text"] != ev["twice"]) else "wrong-text"
-        key = "%s:%s:%s" % (idem, ev["op"], ("stray " + strays[0]) if strays else "+".join(k for k in kinds if k != "txt"))
+        key = "%s:%s:%s" % (idem, ev["op"], ("stray " + (strays[0] if len(strays[0]) < 8 else strays[0][:3] + "-run")) if strays else "+".join(k for k in kinds if k != "txt"))
         if key in seen: seen[key] += 1; continue
         seen[key] = 1
         chk.report(key, "%s of %r (items %d..%d) left %r" % (ev["op"], ev["src"], ev["from"], ev["to"], ev["text"]), dict(src=ev["src"], op=ev["op"], frm=ev["from"], to=ev["to"], got=ev["text"]))
